@@ -6,16 +6,63 @@ synchronisation (mutexes, thread creation, join); the scheduler's hand-off is
 invisible to it.  Every explored schedule changes which critical sections
 precede which, so orderings that are only 'lucky' under the default schedule
 are broken up systematically."""
-import bz2
+import bz2, os
 from lib import common, sched, inputs, lbzx
 
 LEVEL = 'model_checking'
 
+def symbolize(variant, note):
+    """replace 'pc 0x..' in a race note by function and source line"""
+    import re, subprocess
+    from lib import build
+    exe = build.lbzx(variant)
+    def sub(m):
+        try:
+            o = subprocess.run(['addr2line', '-f', '-e', exe, m.group(1)], stdout=subprocess.PIPE, text=True).stdout.split('\n')
+            return '%s %s' % (o[0], o[1].replace(build.REPO + '/', ''))
+        except Exception:
+            return m.group(0)
+    note = re.sub(r'pc (0x[0-9a-f]+)', sub, note)
+    m = re.search(r'global at (0x[0-9a-f]+)', note)
+    if m:
+        try:
+            best = None
+            for line in subprocess.run(['nm', '-n', exe], stdout=subprocess.PIPE, text=True).stdout.split('\n'):
+                f = line.split()
+                if len(f) == 3 and int(f[0], 16) <= int(m.group(1), 16):
+                    best = f[2]
+            note = note.replace(m.group(0), 'global `%s\' (%s)' % (best, m.group(1)))
+        except Exception:
+            pass
+    return note
+
+def garbage_family(quick):
+    """valid streams of every length residue mod 4, followed by trailing
+    garbage of several lengths: where the end of the last stream and the first
+    garbage bits fall relative to the 32-bit words and the input blocks decides
+    which end-of-input path the parser takes (and which variables it reads)"""
+    res = {}
+    i = 0
+    while len(res) < 4:
+        s = bz2.compress(b'hello hello hello' + b'x' * i, 1) + bz2.compress(b'second', 9)
+        i += 1
+        res.setdefault(len(s) % 4, s)
+    out = []
+    for m, s in sorted(res.items()):
+        for gl in ((2, 4, 45) if quick else (1, 2, 3, 4, 5, 9, 45)):
+            out.append(('len%%4=%d garbage=%d' % (m, gl), s + (b'\0garbage!' * 6)[:gl]))
+    return out
+
 def run(tier):
     chk = common.Check('C12', LEVEL, tier, quick_deadline=170, thorough_deadline=1700)
-    ex = sched.Explorer(chk, par=4, jobs=4)
     quick = tier == 'quick'
-    maxd = 1 if quick else 2
+
+    def oracle_hb(c):
+        if c['inv'] & 512:
+            return symbolize('hbrace', c.get('note', 'data race'))
+        if c['kind'] in ('crash', 'deadlock', 'horizon', 'rawexit'):
+            return 'execution ended by %s(%s) %s' % (c['kind'], c['code'], c['stderr_head'][:120])
+        return None
 
     def oracle(c):
         if c['sanitizer']:
@@ -28,34 +75,103 @@ def run(tier):
     s3 = bz2.compress(n3, 1)
     s2 = bz2.compress(inputs.kind('N', 120000, 1), 1) + bz2.compress(inputs.kind('Z', 5000), 1) + b'\0junk'
     bad = bytearray(s3); bad[12] ^= 1
-    cells = []
-    for W in ([2, 3] if quick else [1, 2, 3, 4]):
-        w = '-n%d' % W
-        for sp in (['ZZs', 'E'] if quick else ['ZZs', 'E', 'EZ', 'ZZZ', 'Zs', '']):
-            cells.append(('compress', [w, '-1'], inputs.shape(sp), 'shape=%r W=%d' % (sp, W), {}))
-            cells.append(('compress-seq', [w, '-1', '-u'], inputs.shape(sp), 'shape=%r W=%d' % (sp, W), {}))
-        cells.append(('decompress', [w, '-d'], s3, '3blk W=%d' % W, {}))
-        cells.append(('decompress', [w, '-d'], s3, '3blk in32/out40000 W=%d' % W,
-                      {'setenv': {'LBZIP2_VERIF_IN_GRANUL': '32', 'LBZIP2_VERIF_OUT_GRANUL': '40000'}}))
-        cells.append(('decompress', [w, '-d'], s2, '2streams+garbage in16 W=%d' % W,
-                      {'setenv': {'LBZIP2_VERIF_IN_GRANUL': '16'}}))
-        cells.append(('decompress-bad', [w, '-d'], bytes(bad), 'bad block crc W=%d' % W, {}))
-        if not quick:
-            cells.append(('decompress-test', [w, '-t'], s3, '3blk -t W=%d' % W, {}))
-    for n in ([3, 70000] if quick else [0, 3, 70000, 140000]):
-        data = (b'xy' + inputs.lcg(max(0, n - 2), 5))[:n]
-        cells.append(('copy', ['-cdf'], data, 'copy n=%d' % n, {}))
-    for leg, args, data, desc, opts in cells:
+    def cells_for(Ws, shapes, copies, full):
+        cells = []
+        for W in Ws:
+            w = '-n%d' % W
+            for sp in shapes:
+                cells.append(('compress', [w, '-1'], inputs.shape(sp), 'shape=%r W=%d' % (sp, W), {}))
+                cells.append(('compress-seq', [w, '-1', '-u'], inputs.shape(sp), 'shape=%r W=%d' % (sp, W), {}))
+            cells.append(('decompress', [w, '-d'], s3, '3blk W=%d' % W, {}))
+            cells.append(('decompress', [w, '-d'], s3, '3blk in32/out40000 W=%d' % W,
+                          {'setenv': {'LBZIP2_VERIF_IN_GRANUL': '32', 'LBZIP2_VERIF_OUT_GRANUL': '40000'}}))
+            cells.append(('decompress', [w, '-d'], s2, '2streams+garbage in16 W=%d' % W,
+                          {'setenv': {'LBZIP2_VERIF_IN_GRANUL': '16'}}))
+            cells.append(('decompress-bad', [w, '-d'], bytes(bad), 'bad block crc W=%d' % W, {}))
+            if full:
+                cells.append(('decompress-test', [w, '-t'], s3, '3blk -t W=%d' % W, {}))
+                cells.append(('decompress-verbose', [w, '-d', '-v'], s3, '3blk -v W=%d' % W, {}))
+        for n in copies:
+            data = (b'xy' + inputs.lcg(max(0, n - 2), 5))[:n]
+            cells.append(('copy', ['-cdf'], data, 'copy n=%d' % n, {}))
+        return cells
+
+    # ---- leg 1: happens-before detector on lbzip2's globals, fast in-process executor
+    gf = garbage_family(quick)
+    cases, meta = [], []
+    for name, data in gf:
+        for W in (2, 3):
+            for ig in range(4, len(data) + 8, 4):
+                for pol in (0, 1, 2):
+                    cases.append({'argv': ['lbzip2', '-d', '-n%d' % W], 'env': {'LBZIP2_VERIF_IN_GRANUL': str(ig)}, 'stdin': data, 'policy': pol})
+                    meta.append((name, data, W, ig, pol))
+    res = lbzx.batch('hbrace', cases, timeout=120)
+    for x, (name, data, W, ig, pol) in zip(res, meta):
+        if x['inv'] & 512 or x['kind'] in ('crash', 'deadlock', 'horizon', 'rawexit'):
+            p = os.path.join(common.scratch('c12'), 'in')
+            open(p, 'wb').write(data)
+            rr = lbzx.run('hbrace', ['-d', '-n%d' % W], stdin_path=p, policy='P%d' % pol, setenv={'LBZIP2_VERIF_IN_GRANUL': str(ig)})
+            chk.violation('C12|hb-canon|%s' % symbolize('hbrace', rr.get('note', ''))[:80],
+                          'hbrace, stream %s, -d -n%d in_granul=%d policy P%d: %s(%s) %s' % (name, W, ig, pol, x['kind'], x['code'], symbolize('hbrace', rr.get('note', ''))),
+                          {'engine': 'lbzx', 'variant': 'hbrace', 'cmdline': ' '.join(rr['cmd']), 'stdin_hex': data.hex()})
+    chk.leg('hbrace-garbage-alignment-canonical', cases=len(cases), streams=len(gf))
+    hb = sched.Explorer(chk, par=4, jobs=4)
+    for leg, args, data, desc, opts in cells_for([2, 3] if quick else [1, 2, 3, 4], ['ZZs', 'E', 'EZ', ''] if quick else ['ZZs', 'E', 'EZ', 'ZZZ', 'Zs', '', 'C'],
+                                                 [3, 70000, 140000], True):
+        hb.add('hb:' + leg, 'hbrace', args, data, oracle_hb, desc, opts)
+    for name, data in gf:
+        E = len(data)
+        for ig in sorted({4, 8, 16} | {g for g in range(4, E + 4, 4) if (E % g) in (0, 2) or g >= E}):
+            if quick and ig not in (4, 8) and ig < E - 50:
+                continue
+            hb.add('hb:garbage-alignment', 'hbrace', ['-d', '-n2'], data, oracle_hb, '%s in_granul=%d' % (name, ig),
+                   {'setenv': {'LBZIP2_VERIF_IN_GRANUL': str(ig)}})
+    def nthreads(c):
+        return 3 if c.leg.endswith('copy') else int(c.args[0][2:]) + 3 if c.args[0].startswith('-n') else 5
+    def nthr(c):
+        for a in c.args:
+            if a.startswith('-n'):
+                return int(a[2:]) + 3
+        return 3
+    hb.run_priorities(nthr, cells=[c for c in hb.cells if nthr(c) <= (5 if quick else 6) and c.leg != 'hb:garbage-alignment'])
+    hb_done = -1
+    for d in range(1, (2 if quick else 3) + 1):
+        sel = hb.cells
+        if quick and d == 2:
+            # deepest bound of the quick tier: the two-worker cells and the copy pipeline
+            sel = [c for c in hb.cells if (c.leg != 'hb:garbage-alignment' and '-n2' in c.args) or c.leg == 'hb:copy']
+        if not hb.run_pass(d, cells=sel, time_limit=max(5, chk.left() - (80 if quick else 700))):
+            break
+        hb_done = d
+    chk.cov['hbrace_bound_completed'] = hb_done
+    hb.finish_cov('leg hbrace: every execution with <= d deviations from P0/P1/P2 and every strict-priority scheduler, built with the '
+                  'happens-before detector for lbzip2\'s globals (vsched.c); oracle: no unordered conflicting access pair.')
+
+    # ---- leg 2: ThreadSanitizer build (all memory, incl. heap objects handed between threads)
+    ex = sched.Explorer(chk, par=4, jobs=4)
+    maxd = 1 if quick else 2
+    for leg, args, data, desc, opts in cells_for([2, 3] if quick else [1, 2, 3, 4], ['ZZs', 'E'] if quick else ['ZZs', 'E', 'EZ', 'ZZZ', 'Zs', ''],
+                                                 [3, 70000] if quick else [0, 3, 70000, 140000], not quick):
         ex.add(leg, 'tsan', args, data, oracle, desc, opts)
+    from lib import bzgen
+    tiny3 = bzgen.build([([bzgen.Block(b'block one '), bzgen.Block(b'second block, longer than the first'), bzgen.Block(b'3rd')], 1)])[0]
+    for W in (2, 3):
+        ex.add('decompress-tiny', 'tsan', ['-n%d' % W, '-d'], tiny3 + b'\0trailing', oracle, 'tiny 3blk+garbage in8/out7 W=%d' % W,
+               {'setenv': {'LBZIP2_VERIF_IN_GRANUL': '8', 'LBZIP2_VERIF_OUT_GRANUL': '7'}})
     done = -1
     for d in range(0, maxd + 1):
-        if not ex.run_pass(d):
+        sel = ex.cells
+        if quick and d == 1:
+            sel = [c for c in ex.cells if '-n2' in c.args or c.leg == 'copy']
+        if not ex.run_pass(d, cells=sel):
             break
         done = d
     chk.cov['bound_completed_all_cells'] = done
-    ex.finish_cov('every execution with <= d deviations from schedulers P0/P1/P2 of the ThreadSanitizer build; '
+    ex.finish_cov('leg tsan: every execution with <= d deviations from schedulers P0/P1/P2 of the ThreadSanitizer build; '
                   'oracle: no race report.  States as in C11.')
+    chk.cov['evaluations'] += len(cases)
     chk.assumptions += ['ThreadSanitizer happens-before analysis with its finite per-location history',
+                        'hbrace detector: globals of lbzip2 only (sections lbz_data/lbz_bss), synchronisation edges = mutex unlock->lock, flockfile, create, join, kill->signal delivery',
                         'sequentially consistent interleavings only',
                         'execution boundaries of the in-process executor are full barriers for the detector']
     return chk.finish()
